@@ -1067,16 +1067,31 @@ func (g *Gen) Render(n *Node, v Val, pos string) (Val, bool) {
 				same = same && kv.V.T == t
 			}
 			if same {
+				generic := g.p(0.4, "gmap") // a user-defined map type / an element type without a provider of its own
 				switch t {
 				case "string":
 					out.T = "mapss"
+					if generic {
+						out.T = "nmapss"
+					}
 				case "int":
 					out.T = "mapsi"
+					if generic {
+						out.T = pick(g, []string{"nmapsi", "mapsi64"}, "gmk")
+					}
 				case "float64":
 					out.T = "mapsf"
+					if generic {
+						out.T = "nmapsf"
+					}
 				case "bool":
 					out.T = "mapsb"
+					if generic {
+						out.T = "nmapsb"
+					}
 				}
+			} else if g.p(0.3, "nmap") {
+				out.T = "nmap"
 			}
 			if out.T != "map" {
 				return out, true
